@@ -2,6 +2,14 @@
 """Generates MANIFEST.json. Edit BUILT / texts here, run, commit."""
 import json
 BUILT = {
+ "C07": dict(level="exploration", technique="exhaustive enumeration of layout graphs over a bounded file set plus boundary-length chains and cycles, against a reference resolver",
+   text="All layout graphs over page (root or pages/), layouts/a, layouts/b, optional layouts/base and an optional relative twin pages/a, every file's layout key over {none,a,b,base,self,missing}, page key from front-matter or Fill (9.5k graphs); straight chains of 1..150 (thorough ..300) links around the limit of 100; cycles of length 1,2,3,7; all 16 subsets of sources defining a colliding data key. Expected nesting order with each marker once, or an error with nothing written.",
+   note="Trusts the reference resolver in checks/c07.go. A chain of exactly 100 links may succeed or fail.",
+   ref="DESIGN.md §3 C07"),
+ "C08": dict(level="model_checking", engine="bfs", technique="explicit-state search over Fill/Assign/New/Load histories replayed on the real templates with a layered reference model; exhaustive presence-pattern product",
+   text="History part: depth-bounded explicit-state search (depth 4 quick, 6 thorough) over 8 operations on a tree of up to 3 templates; every state is reached by replaying its history on a fresh engine, every live template is observed (file render, string render, Get) after every step and compared with a layered reference model, and non-target templates must be unchanged (isolation). Presence part: all 2^5 source subsets x call orders x Fill datum kinds x name kinds x value types x read positions x entry points.",
+   note="Trusts the reference model in checks/c08.go. Keys not mentioned by a later Fill, nil struct fields, and Get after an explicit Assign over loaded front-matter are unconstrained. Go-field-name addressing of Fill structs is a recorded finding.",
+   ref="DESIGN.md §3 C08"),
  "C06": dict(level="exploration", technique="bounded-exhaustive product over slot sets, supply forms, content kinds and instance arrangements against expected content per slot position",
    text="A header/default/footer component used by includers supplying every subset of its slots in every syntactic form x 4 content kinds x 4 instance arrangements; scoped slots through 4 components x 4 consumer forms; the same slot used twice; 5 nested-component arrangements; layout-inherited slots. Expected text and bound attributes at each slot position.",
    note="Trusts the expected-content construction in checks/c06.go. Whitespace around spliced nodes is insignificant. Nesting depth 2, at most 2 instances side by side.",
@@ -60,6 +68,8 @@ m = {
  "engines": [
    {"name": "enum", "path": "engine/core", "serves_properties": [c["property_id"] for c in checks if c["engine"] == "enum"],
     "kind_free_text": "bounded-exhaustive enumeration sharded over 16 worker subprocesses with per-case crash/hang attribution"},
+   {"name": "bfs", "path": "engine/core + checks/*", "serves_properties": [c["property_id"] for c in checks if c["engine"] == "bfs"],
+    "kind_free_text": "explicit-state search over operation histories; a state is the history that reaches it, successors are built by replaying the history on fresh objects plus one operation, deduplicated on (reference-model state, observations)"},
  ],
  "checks": checks,
  "not_applicable": [{"property_id": p, "reason": "check not built yet (work in progress; see DESIGN.md §7)"} for p in ALL if p not in BUILT],
